@@ -656,8 +656,11 @@ Adjoint(st, tot, h) ==     \* stored per cell of the owner's buffer
 \* the releasing traversal of backward() (it also walks through constants) reaches an operation recorded before one of
 \* its inputs was cleared: with a pending F-C09-1 consumer this is where the traversal crosses into the mutated tensor's
 \* NEW graph and clears it (no staleness guard on this path) - the known finding becomes manifest
+\* (only operations the GRADIENT traversal does not reach - behind a constant - count: where the gradient traversal itself
+\*  meets such an operation MyGrad's staleness guard must raise InvalidBackprop, see PartialClear)
 CrossesMissed(st, n) ==
-  st.pend # {} /\ \E m \in UpAll(st, n) : st.N[m].cr /\ \E i \in 1..Len(st.N[m].par) : st.N[st.N[m].par[i]].clrAt > st.N[m].born
+  st.pend # {} /\ \E m \in UpAll(st, n) \ UpDiff(st, n) :
+                     st.N[m].cr /\ \E i \in 1..Len(st.N[m].par) : st.N[st.N[m].par[i]].clrAt > st.N[m].born
 ApplyBackward(st00, s) ==
   LET L == s.h lr == st00.H[L]
       st == [st00 EXCEPT !.kf = IF st00.track /\ CrossesMissed(st00, lr.node) THEN @ \cup {"F-C09-1"} ELSE @] IN
